@@ -39,6 +39,7 @@ type Frame struct {
 	loops  []*ssa.BasicBlock
 	openLoops map[*ssa.BasicBlock]*loopCtx
 	top    bool
+	lastLookupAddr bool
 }
 
 type retRec struct {
@@ -80,7 +81,7 @@ func (fr *Frame) name(v ssa.Value) string {
 
 func (fr *Frame) define(v ssa.Value, val Val) {
 	u := fr.u
-	if val.Tup != nil || val.Loc != nil || val.Iter != nil {
+	if val.Tup != nil || val.Loc != nil || val.Iter != nil || val.BoxLoc != nil {
 		fr.vals[v] = val
 		return
 	}
@@ -1077,7 +1078,7 @@ func (fr *Frame) execIndexAddr(st *State, i *ssa.IndexAddr) {
 	case *types.Slice:
 		fr.safe(st, and(app("<=", "0", ix.T), app("<", ix.T, app("sl_len", x.T))), i.Pos(), "index", "slice index in range")
 		h := u.arrHeap(xt.Elem())
-		fr.vals[i] = Val{Loc: &Loc{Heap: h, Idx: []string{app("sl_base", x.T), app("+", app("sl_off", x.T), ix.T)}, Ty: xt.Elem()}, Ty: i.Type()}
+		fr.vals[i] = Val{Loc: &Loc{Heap: h, Idx: []string{app("sl_base", x.T), app("ix", app("sl_off", x.T), ix.T)}, Ty: xt.Elem()}, Ty: i.Type()}
 	case *types.Pointer:
 		arr := xt.Elem().Underlying().(*types.Array)
 		fr.safeNonNil(st, x, i.Pos(), "index of nil array pointer")
@@ -1303,7 +1304,9 @@ func (fr *Frame) boxFns(t types.Type) (box, unbox string) {
 func (fr *Frame) box(st *State, x Val, t types.Type) Val {
 	u := fr.u
 	if x.Loc != nil {
-		u.unsup("boxing a sub-location pointer")
+		b := u.enc.freshConst("boxloc", "Int")
+		u.assume(and(not(eq(b, "0")), eq(app("typeof", b), u.enc.typeTag(t))))
+		return Val{T: b, S: "Int", BoxLoc: x.Loc, BoxTy: t}
 	}
 	if _, ok := t.Underlying().(*types.Interface); ok {
 		return x
@@ -1414,8 +1417,9 @@ func (fr *Frame) execNext(st *State, i *ssa.Next) {
 	u.assumeG(st, implies(not(ok), fmt.Sprintf("(forall ((%s %s)) (! (=> (and (select %s %s) (select %s %s)) (select %s %s)) :pattern ((select %s %s)) :pattern ((select %s %s))))",
 		kk, ks, it.Dom0, kk, curDom, kk, vis, kk, curDom, kk, vis, kk)))
 	u.heapSet(st, it.Ghost, ite(ok, sto(vis, k, "true"), vis))
-	kv := Val{T: k, S: ks, Ty: tup.At(1).Type()}
-	vt := tup.At(2).Type()
+	kv := Val{T: k, S: ks, Ty: mt.Key()} // (the tuple's component types are invalid for blank range variables)
+	vt := mt.Elem()
+	_ = tup
 	vv := Val{T: sel(sel(u.heapCur(st, val), it.Map.T), k), S: u.enc.sortOf(vt), Ty: vt}
 	if u.dry == 0 {
 		c := u.enc.freshConst(fr.name(i)+"v", vv.S)
